@@ -23,7 +23,12 @@ def run(ctx):
         'the outermost duct: element widths (pin pitch, 2 x corner length) '
         'sum, side by side, to the boundary the walk ends on, 6 / sqrt3 x '
         'outer flat-to-flat, with the corner length closed form of C08.R4 '
-        '(so the corner length must be that of the last duct\'s outer face)']
+        '(so the corner length must be that of the last duct\'s outer face)',
+        'R5 every region owns its pair of maps: the container reg._map is '
+        'bound to a fresh dict for each region where the maps are stored '
+        '(regions are shallow clones of a template: a dict created once in '
+        'the constructor would be shared by all assemblies of a type and keep '
+        'only the maps of the last one)']
     ctx.not_decided += ['positivity, exactness on constants and '
                         'conservation as numeric facts of the run-time '
                         'matrices']
@@ -33,6 +38,8 @@ def run(ctx):
     r3(ctx, fi)
     r4(ctx)
     ctx.min_instances('C10.R4', 3)
+    r5(ctx)
+    ctx.min_instances('C10.R5', 1)
     ctx.min_instances('C10.R1', 8)
     ctx.min_instances('C10.R2', 5)
     ctx.min_instances('C10.R3', 2)
@@ -309,3 +316,48 @@ def r4(ctx):
                 ends[0], 'the walk ends at the perimeter of the outermost '
                 'duct outer face, 6 / sqrt3 x duct_ftf[-1][1]',
                 key=fi.full + ' | perimeter')
+
+
+# ---------------------------------------------------------------------------
+# R5: per-region ownership of the maps
+
+def r5(ctx):
+    sm = ctx.repo.func('reactor', 'Reactor._setup_gap_mesh_params')
+    keyed = [(t, st) for t, st in U.stores(sm.node)
+             if isinstance(t, ast.Subscript) and _s(t.value).endswith('._map')]
+    whole = [(t, st) for t, st in U.stores(sm.node)
+             if isinstance(t, ast.Attribute) and t.attr == '_map'
+             and isinstance(st, ast.Assign)]
+    ok = bool(whole) and all(isinstance(st.value, ast.Dict) or (
+        isinstance(st.value, ast.Call) and _s(st.value.func) == 'dict')
+        for t, st in whole)
+    if ok and keyed:
+        # the rebinding happens in the same loop body, before the keyed stores
+        for t, st in keyed:
+            owner = _s(t.value)
+            pre = [w for tw, w in whole if _s(tw) == owner
+                   and w.lineno < st.lineno and
+                   [id(l) for l in U.enclosing_loops(w)] ==
+                   [id(l) for l in U.enclosing_loops(st)]
+                   and not U.guards(w, stop=(U.enclosing_loops(w) or [None])[0])]
+            ok = ok and bool(pre)
+    ctx.require(ok, 'C10.R5', sm, whole[0][1] if whole else sm.node,
+                'reg._map must be bound to a fresh dict for every region '
+                'before / when the two maps are stored (found %d whole '
+                'bindings, %d keyed stores)' % (len(whole), len(keyed)),
+                key=sm.full + ' | fresh map container')
+    # and no constructor creates a container that clones would share
+    for ci in ctx.repo.all_classes():
+        if not ci.mod.name.startswith('dassh.region'):
+            continue
+        m = ci.methods.get('__init__')
+        if m is None:
+            continue
+        for t, st in U.stores(m.node):
+            if isinstance(t, ast.Attribute) and t.attr == '_map' and \
+                    isinstance(st, ast.Assign) and isinstance(
+                        st.value, (ast.Dict, ast.Call)):
+                ctx.require(ok, 'C10.R5', m, st, 'a _map container created '
+                            'in the constructor is shared by shallow clones '
+                            'unless it is re-bound per region',
+                            key=m.full + ' | constructor container')
